@@ -322,6 +322,24 @@ def r184(prog, chk):
         ok2 = any(o == "falsy" and "endswith" in l for o, l, r in fs) and any(o == "truthy" for o, l, r in fs)
         chk.ob("R18.4", f"{mf.short}|split for {T(dkw)} only without explicit suffix", ok2, where(mf, c), detail="not entryName.endswith(('.LTR','.RTL')) and shouldSplit",
                message="anchors with an explicit .LTR/.RTL suffix are split by script direction anyway")
+    # every glyph of the (exported) glyph set is looked at: the collection the pairs and the lookups are built from is the
+    # ordered glyph set itself, and the only thing that narrows it is the LTR / RTL split
+    gsn = [s_ for s_ in A.stmts_of(mf.node) if isinstance(s_, ast.Assign) and isinstance(s_.targets[0], ast.Name) and "getOrderedGlyphSet" in T(s_.value)]
+    need(len(gsn) == 1, f"cannot interpret {mf.short}: ordered glyph set")
+    gname = gsn[0].targets[0].id
+    uses = [n_ for n_ in A.body_nodes(mf.node) if isinstance(n_, ast.Name) and n_.id == gname and isinstance(n_.ctx, ast.Load)]
+    okall = bool(uses) and all(len(prog.reaching(mf, n_.id, n_)) == 1 and prog.reaching(mf, n_.id, n_)[0].binder is gsn[0] for n_ in uses)
+    filt = []
+    for c in calls_named(mf, "_makeCursiveLookup"):
+        g_ = c.args[0] if c.args else None
+        if isinstance(g_, ast.GeneratorExp):
+            for cond_ in g_.generators[0].ifs:
+                p_ = A.compare_parts(cond_)
+                if not (p_ and isinstance(p_[1], (ast.In, ast.NotIn)) and "'LTR'" in T(p_[2])):
+                    filt.append(T(cond_, 50))
+    chk.ob("R18.4", f"{mf.short}|every glyph of the ordered glyph set is a candidate for cursive attachment", okall and not filt, where(mf, gsn[0]), detail=f"{gname} = {T(gsn[0].value, 50)}; extra filters: {filt}",
+           message=f"{mf.short}: the glyphs examined for entry / exit anchors are no longer the whole ordered glyph set (rebinding of `{gname}` or an extra filter {filt}): a glyph with "
+                   f"entry / exit anchors can be left without its cursive attachment record")
     ga = cw.methods["_getAnchors"]
     for c in calls_named(ga, "Anchor"):
         for kw in c.keywords:
@@ -331,7 +349,7 @@ def r184(prog, chk):
                 ok = ok and idx is not None and A.is_const(idx, 0 if kw.arg == "x" else 1)
                 chk.ob("R18.4", f"{ga.short}|{A.keytext(ga.node, c)}|{kw.arg}", ok, where(ga, c), detail=f"{kw.arg}=otRoundIgnoringVariable(anchor[{0 if kw.arg == 'x' else 1}])",
                        message=f"cursive anchor {kw.arg} is not the rounded {'first' if kw.arg == 'x' else 'second'} coordinate")
-    chk.minimum("R18.4", 12)
+    chk.minimum("R18.4", 13)
 
 
 # ----------------------------------------------------------------------------- R18.5
@@ -389,6 +407,8 @@ def r185(prog, chk):
 
 
 MUTANTS = [
+    M("mark-categorised glyphs are not examined for cursive anchors (seeded C18h)", "ufo2ft/featureWriters/cursFeatureWriter.py", "CursFeatureWriter._makeCursiveFeature",
+      "cursiveAnchorsPairs = self._getCursiveAnchorPairs(orderedGlyphSet)", "orderedGlyphSet = [(n, g) for n, g in orderedGlyphSet if n not in self.getOpenTypeCategories().mark]\ncursiveAnchorsPairs = self._getCursiveAnchorPairs(orderedGlyphSet)", rule="R18.4"),
     M("parsed categories remembered in the font's tempLib (seeded C18d)", "ufo2ft/util.py", "OpenTypeCategories.load",
       "openTypeCategories = font.lib.get(OPENTYPE_CATEGORIES_KEY, {})",
       "openTypeCategories = font.lib.get(OPENTYPE_CATEGORIES_KEY, {})\ncached = getattr(font, 'tempLib', {}).get(OPENTYPE_CATEGORIES_KEY)\nif cached is not None and cached[0] is openTypeCategories:\n    return cached[1]", rule="R18.1", count=2),
